@@ -34,6 +34,9 @@ type Object struct {
 	symw     []symWrite
 	released bool
 	readonly bool
+	acc      []accRec // concurrent mode: access records for the happens-before race check
+	multi    bool
+	norace   bool
 }
 
 func (ex *Exec) newObject(elem types.Type, count int, name string) *Object {
@@ -89,6 +92,9 @@ func (ex *Exec) readCell(o *Object, i int) Value {
 	if i < 0 || i >= o.ncells {
 		panic(fmt.Sprintf("internal: readCell out of range obj%d(%s) %d/%d", o.id, o.name, i, o.ncells))
 	}
+	if ex.conc != nil && ex.raceOff == 0 {
+		ex.raceAccess(o, i, i+1, false)
+	}
 	v, seq := ex.baseAt(o, i)
 	if len(ex.ts.subst) > 0 {
 		if t, ok := v.(*Term); ok && t.op != OpConst {
@@ -133,6 +139,9 @@ func (ex *Exec) writeCell(o *Object, i int, v Value) {
 	if o.readonly {
 		panic(unsupported("write to read-only object " + o.name))
 	}
+	if ex.conc != nil && ex.raceOff == 0 {
+		ex.raceAccess(o, i, i+1, true)
+	}
 	s := ex.nextSeq()
 	if o.dense != nil {
 		o.dense[i] = v
@@ -149,6 +158,9 @@ func (ex *Exec) fillRange(o *Object, lo, hi int, arr *Arr) {
 			ex.writeCell(o, i, ex.zeroValue(o.cellType(i)))
 		}
 		return
+	}
+	if ex.conc != nil && ex.raceOff == 0 {
+		ex.raceAccess(o, lo, hi, true)
 	}
 	s := ex.nextSeq()
 	if o.dense != nil {
@@ -197,6 +209,11 @@ func (ex *Exec) symRead(o *Object, idx *Term, lo, hi, st int) *Term {
 		st = 1
 	}
 	ex.stats.symReads++
+	if ex.conc != nil && ex.raceOff == 0 {
+		ex.raceCoarse = true
+		ex.raceAccess(o, lo, hi, false)
+		ex.raceCoarse = false
+	}
 	type ev struct {
 		seq  int32
 		kind int // 0 cell 1 fill 2 symw
@@ -285,6 +302,11 @@ func (ex *Exec) symWriteCell(o *Object, idx *Term, v *Term) {
 		panic(unsupported("write to read-only object " + o.name))
 	}
 	ex.stats.symWrites++
+	if ex.conc != nil && ex.raceOff == 0 {
+		ex.raceCoarse = true
+		ex.raceAccess(o, 0, o.ncells, true)
+		ex.raceCoarse = false
+	}
 	o.symw = append(o.symw, symWrite{idx, v, ex.nextSeq()})
 }
 
@@ -311,7 +333,7 @@ func (ex *Exec) load(p Pointer, t types.Type) Value {
 		ex.goPanic("nil pointer dereference")
 	}
 	if p.obj.released {
-		ex.event("use-after-put", "load from object released to pool: "+p.obj.name)
+		ex.useAfterPut("load from object released to pool: " + p.obj.name)
 	}
 	l := layoutOf(t)
 	if l.kind == 0 {
@@ -350,7 +372,7 @@ func (ex *Exec) store(p Pointer, t types.Type, v Value) {
 		ex.goPanic("nil pointer dereference")
 	}
 	if p.obj.released {
-		ex.event("use-after-put", "store to object released to pool: "+p.obj.name)
+		ex.useAfterPut("store to object released to pool: " + p.obj.name)
 	}
 	l := layoutOf(t)
 	if l.kind == 0 {
